@@ -314,8 +314,11 @@ def run(model: RepoModel, rep, tier: str):
     if ct is None:
         raise AnalysisError("GlobalStmtStates.compute_target_method_states vanished")
     cfg = cfg_of(ct.node)
+    # the list of callees handed to the frame driver, by role: what is passed as callee_ids= to InterruptionData
+    sched_lists = {k.value.id for c in walk_no_nested(ct.node) if isinstance(c, ast.Call) and (call_name(c) or "").endswith("InterruptionData")
+                   for k in c.keywords if k.arg == "callee_ids" and isinstance(k.value, ast.Name)}
     sched = [n for n in cfg.g.nodes for c in cfg.calls_at(n) if isinstance(c.func, ast.Attribute) and c.func.attr == "append"
-             and "to_be_analyzed" in norm(c.func.value)]
+             and isinstance(c.func.value, ast.Name) and c.func.value.id in sched_lists]
     if not sched:
         raise AnalysisError("compute_target_method_states: scheduling of callees not found")
     sn = sched[0]
@@ -361,8 +364,11 @@ def run(model: RepoModel, rep, tier: str):
     am = p2.methods.get("analyze_method")
     if am is not None:
         key = f"{PS}::analyze_method::callee frames only for unanalysed methods"
+        # the frame stack by role: the local constructed from ComputeFrameStack(...)
+        stack_vars = {n.targets[0].id for n in walk_no_nested(am.node) if isinstance(n, ast.Assign) and isinstance(n.targets[0], ast.Name)
+                      and any(isinstance(x, ast.Call) and (call_name(x) or "").endswith("ComputeFrameStack") for x in ast.walk(n.value))} or {"frame_stack"}
         pushes = [n for n in walk_no_nested(am.node) if isinstance(n, ast.Call) and isinstance(n.func, ast.Attribute) and n.func.attr in ("add", "append", "push")
-                  and "frame_stack" in norm(n.func.value)]
+                  and isinstance(n.func.value, ast.Name) and n.func.value.id in stack_vars]
         guarded = any("analyzed_method_list" in norm(t.test) for t in walk_no_nested(am.node) if isinstance(t, ast.If))
         if pushes and guarded:
             rep.holds("C13.R3", key, PS, am.node.lineno, f"{len(pushes)} frame push(es); membership in analyzed_method_list is tested")
@@ -372,7 +378,8 @@ def run(model: RepoModel, rep, tier: str):
     # P2: a frame that leaves the stack is recorded as analysed on that path (the only thing that stops its caller from asking again)
     if am is not None:
         acfg = cfg_of(am.node)
-        pops = [n for n in acfg.g.nodes for c in acfg.calls_at(n) if isinstance(c.func, ast.Attribute) and c.func.attr == "pop" and "frame_stack" in norm(c.func.value)]
+        pops = [n for n in acfg.g.nodes for c in acfg.calls_at(n) if isinstance(c.func, ast.Attribute) and c.func.attr == "pop"
+                and isinstance(c.func.value, ast.Name) and c.func.value.id in stack_vars]
         recs = {n for n in acfg.g.nodes for c in acfg.calls_at(n) if isinstance(c.func, ast.Attribute) and c.func.attr == "add"
                 and "analyzed_method_list" in norm(c.func.value)}
         heads = [n for n in acfg.g.nodes if acfg.kind[n] == "test" and isinstance(acfg.stmt[n], ast.While)]
